@@ -147,6 +147,8 @@ def gen_steps(rng, case, n_calls=None):
             st = {'t': 'call', 'out': out, 'env': env}
             if rng.random() < 0.12:
                 st['fail_at'] = [rng.randrange(4)]
+            elif rng.random() < 0.15 and not case.get('impure'):
+                st['two_phase'] = True      # real side: get_hash, then get_value from its state (the model: one call)
             steps.append(st)
         elif r < 0.9:
             steps.append({'t': 'hash', 'out': out, 'env': env})
